@@ -12,7 +12,7 @@ import NeumannModel.Vault.Model
     grantttl <now> <req> <ent> <sec> <lvl> <ttl>   revoke <now> <req> <ent> <sec>
     delegate <now> <parent> <child> <s,s,..> <lvl> <ttl|->     undelegate <now> <parent> <child>
     addmember <a> <b>   delmember <a> <b>   membersec <a> <sec>   delmembersec <a> <sec>
-    rawaccess <ent> <sec> <lvlcode 0..4> <cap 0..3|9> <sig 0|1>    perm <req> <sec>
+    rawaccess <ent> <sec> <lvlcode 0..4> <cap 0..3|9> <sig 0|1>    perm <now> <req> <sec>
 -/
 open Neumann Neumann.Proto Neumann.Vault
 
@@ -44,25 +44,25 @@ def vaultStep (s : State) (line : String) : State × String :=
       | some [al, wl, hz, md, ms, mv] => (init { adminLimit := al, writeLimit := wl, horizon := hz } md ms mv, "ok")
       | _ => bad
   | "set" :: rest => match nats rest with
-      | some [_, req, sec, val, size] => fin (s.set req sec val size) | _ => bad
+      | some [now, req, sec, val, size] => fin (s.set now req sec val size) | _ => bad
   | "get" :: rest => match nats rest with
       | some [now, req, sec] => fin (s.get now req sec) | _ => bad
   | ["list", now, req, p] => match now.toNat?, req.toNat?, parsePattern p with
       | some now, some req, some p => fin (s.list now req p) | _, _, _ => bad
   | "rotate" :: rest => match nats rest with
-      | some [_, req, sec, val, size] => fin (s.rotate req sec val size) | _ => bad
+      | some [now, req, sec, val, size] => fin (s.rotate now req sec val size) | _ => bad
   | "delete" :: rest => match nats rest with
-      | some [_, req, sec] => fin (s.delete req sec) | _ => bad
+      | some [now, req, sec] => fin (s.delete now req sec) | _ => bad
   | "grant" :: rest => match nats rest with
-      | some [_, req, ent, sec, l] => (match Level.ofNat? l with
-          | some l => fin (s.grant req ent sec l) | none => bad)
+      | some [now, req, ent, sec, l] => (match Level.ofNat? l with
+          | some l => fin (s.grant now req ent sec l) | none => bad)
       | _ => bad
   | "grantttl" :: rest => match nats rest with
       | some [now, req, ent, sec, l, ttl] => (match Level.ofNat? l with
           | some l => fin (s.grantTtl now req ent sec l ttl) | none => bad)
       | _ => bad
   | "revoke" :: rest => match nats rest with
-      | some [_, req, ent, sec] => fin (s.revoke req ent sec) | _ => bad
+      | some [now, req, ent, sec] => fin (s.revoke now req ent sec) | _ => bad
   | ["delegate", now, p, c, secs, l, ttl] =>
       match now.toNat?, p.toNat?, c.toNat?, parseNats secs, l.toNat?.bind Level.ofNat? with
       | some now, some p, some c, some secs, some l =>
@@ -87,7 +87,10 @@ def vaultStep (s : State) (line : String) : State × String :=
         ({ s with graph := s.graph ++ [e], nextId := s.nextId + 1 }, "ok")
       | _ => bad
   | "perm" :: rest => match nats rest with
-      | some [req, sec] => (s, match s.getPermission req sec with | some l => toString l.toNat | none => "none")
+      | some [now, req, sec] =>
+        -- `Vault::get_permission`: a non-root caller expires grants first (state effect kept)
+        (if req = root then s else s.cleanup now,
+         match s.getPermission now req sec with | some l => toString l.toNat | none => "none")
       | _ => bad
   | _ => bad
 
